@@ -100,48 +100,55 @@ def check_function(acc, fname, m0, src, r, renumber_ok=True, label=''):
     except Exception as e:
         if valid:
             acc.v(f'exc:{type(e).__name__}@{fname}', f'{fname} raised {type(e).__name__}: {e} at {_where(e)} on valence-valid {src}',
-                  {'smiles': src, 'function': fname}, f'{type(e).__name__}: {e}')
+                  {'smiles': src, 'function': fname, 'signature': sig}, f'{type(e).__name__}: {e}')
         else:
             acc.stat('exception-on-invalid-input')
         return None
     s_in, s_a = str(m0), str(a)
+    sig = O.resonance_signature(m0, a)
+
+    def key(contract, out=None, inp=None):
+        """root-cause family: contract@function, or the recorded fix_resonance root cause when its signature is in the result"""
+        sg = sig or (O.resonance_signature(inp, out) if out is not None else None)
+        return f'resonance:{sg}' if sg else f'{contract}@{fname}'
     if s_in != s_a:
         acc.keys.add((fname, s_in))  # non-trivial: the function changed the molecule
     if O.heavy(a) != O.heavy(m0):
-        acc.v(f'heavy@{fname}', f'{fname} changed the heavy-atom multiset of {src}: {s_in} -> {s_a}', {'smiles': src, 'function': fname}, s_a)
+        acc.v(key('heavy'), f'{fname} changed the heavy-atom multiset of {src}: {s_in} -> {s_a}', {'smiles': src, 'function': fname, 'signature': sig}, s_a)
     if valid:
         dq = O.net_charge(a) - O.net_charge(m0)
         h0, h1 = O.total_h(m0), O.total_h(a)
         if h1 is None:
-            acc.v(f'valid@{fname}', f'{fname} produced undefined hydrogen counts {a.check_valence()} from valence-valid {src}: {s_a}',
-                  {'smiles': src, 'function': fname}, s_a)
+            acc.v(key('valid'), f'{fname} produced undefined hydrogen counts {a.check_valence()} from valence-valid {src}: {s_a}',
+                  {'smiles': src, 'function': fname, 'signature': sig}, s_a)
         else:
             dh = h1 - h0
             if kind == REARR and (dq or dh):
-                acc.v(f'conserve@{fname}', f'{fname} changed net charge by {dq} and hydrogens by {dh}: {s_in} -> {s_a}',
-                      {'smiles': src, 'function': fname}, s_a)
+                acc.v(key('conserve'), f'{fname} changed net charge by {dq} and hydrogens by {dh}: {s_in} -> {s_a}',
+                      {'smiles': src, 'function': fname, 'signature': sig}, s_a)
             elif kind == 'neutralize' and dq != dh:
-                acc.v(f'conserve@{fname}', f'{fname} changed net charge by {dq} but hydrogens by {dh}: {s_in} -> {s_a}',
-                      {'smiles': src, 'function': fname}, s_a)
+                acc.v(key('conserve'), f'{fname} changed net charge by {dq} but hydrogens by {dh}: {s_in} -> {s_a}',
+                      {'smiles': src, 'function': fname, 'signature': sig}, s_a)
             elif strong:
                 bad = O.invalid_atoms(a)
                 if bad:
-                    acc.v(f'valid@{fname}', f'{fname} produced a valence error on atoms {bad[:5]}: {s_in} -> {format(a, "h")}',
-                          {'smiles': src, 'function': fname}, s_a)
+                    acc.v(key('valid'), f'{fname} produced a valence error on atoms {bad[:5]}: {s_in} -> {format(a, "h")}',
+                          {'smiles': src, 'function': fname, 'signature': sig}, s_a)
     # idempotence
     b = a.copy()
     acc.n += 1
     try:
         f(b)
         if str(b) != s_a:
-            acc.v(f'idempotent@{fname}', f'{fname} twice differs from once on {src}: {s_a} -> {b}', {'smiles': src, 'function': fname}, str(b))
+            acc.v(key('idempotent', b, a), f'{fname} twice differs from once on {src}: {s_a} -> {b}', {'smiles': src, 'function': fname, 'signature': sig}, str(b))
     except Exception as e:
         if valid:
             acc.v(f'exc:{type(e).__name__}@{fname}:twice', f'second {fname} raised {type(e).__name__}: {e} at {_where(e)} on {s_a}',
-                  {'smiles': src, 'function': fname}, f'{type(e).__name__}: {e}')
+                  {'smiles': src, 'function': fname, 'signature': sig}, f'{type(e).__name__}: {e}')
     # renumbering
     if renumber_ok:
         p, mp = renumber(m0, r)
+        p0 = p.copy()
         acc.n += 1
         if str(p) != s_in:
             acc.stat('gap_hits:input-string-not-numbering-independent(C01)')
@@ -158,10 +165,31 @@ def check_function(acc, fname, m0, src, r, renumber_ok=True, label=''):
                 a2.remap(mp)
                 if str(a2) != s_a:
                     acc.stat('gap_hits:output-string-not-numbering-independent(C01)')
+                elif _resonance_choice(m0, p0):
+                    # recorded root cause: fix_resonance pairs donors and acceptors in set.pop() order of the atom numbers
+                    acc.v('resonance:choice-by-atom-number', f'{fname}: fix_resonance alone already depends on numbering for {src}: {s_a} vs {p}',
+                          {'smiles': src, 'function': fname, 'permutation': _perm_of(mp)}, str(p))
                 else:
-                    acc.v(f'renumber@{fname}', f'{fname} depends on numbering for {src}: {s_a} vs {p} under {_perm_of(mp)[:120]}',
+                    acc.v(key('renumber', p, p0), f'{fname} depends on numbering for {src}: {s_a} vs {p} under {_perm_of(mp)[:120]}',
                           {'smiles': src, 'function': fname, 'permutation': _perm_of(mp)}, str(p))
     return a
+
+
+def _resonance_choice(m0, p0):
+    """attribution experiment: does fix_resonance alone (on the given form and on the Kekule form) depend on the numbering?"""
+    for kek in (False, True):
+        x, y = m0.copy(), p0.copy()
+        try:
+            if kek:
+                x.kekule()
+                y.kekule()
+            x.fix_resonance()
+            y.fix_resonance()
+        except Exception:
+            continue
+        if str(x) != str(y):
+            return True
+    return False
 
 
 def check_inverse(acc, m0, src):
